@@ -224,6 +224,36 @@ fn random_grammar(rng: &mut Rng, name: &str) -> (String, Vec<&'static str>) {
             feats.push("alias-merged-node-type");
         }
     }
+    // alias nesting through inlining: an INLINED rule used under an alias, whose body contains symbols
+    // that carry their own alias (rule or token) and plain ones of a different shape; the inner-aliased
+    // rule is also used un-aliased elsewhere, so its alias does not become a default alias
+    if rng.chance(1, 2) {
+        feats.push("alias-of-inlined-with-inner-alias");
+        rules.push(("rec_pair".into(), seq(vec![field("key", sym("identifier")), lit(":"), field("value", e())])));
+        rules.push(("rec_group".into(), seq(vec![lit("["), rep(field("member", sym("identifier"))), opt(sym("number")), lit("]")])));
+        let inner = match rng.below(3) {
+            0 => alias(sym("rec_group"), "bundle", true),
+            1 => alias(sym("rec_group"), "rec_pair", true),
+            _ => alias(sym("rec_group"), "bundle", false),
+        };
+        let mut alts2 = vec![sym("rec_pair"), inner];
+        if rng.chance(1, 2) { alts2.push(alias(sym("number"), "rec_num", true)); }
+        // (a multi-step alternative here would be aliased step by step after inlining — see the
+        // known finding aliased-inline-multistep in corpus/c16.txt; kept out of the random family)
+        rules.push(("_rec_entry".into(), choice(alts2)));
+        inline.push(json!("_rec_entry"));
+        let outer = match rng.below(3) { 0 => "record", 1 => "rec_pair", _ => "rec_group" };
+        let body = if rng.chance(1, 2) { alias(sym("_rec_entry"), outer, true) } else { field("entry", alias(sym("_rec_entry"), outer, true)) };
+        rules.push(("rec_stmt".into(), seq(vec![lit("rec"), body, lit(";")])));
+        items.push(sym("rec_stmt"));
+        rules.push(("grp_stmt".into(), seq(vec![lit("grp"), sym("rec_group"), opt(sym("rec_pair")), lit(";")])));
+        items.push(sym("grp_stmt"));
+        if rng.chance(1, 2) {
+            // the inlined rule is also used without the outer alias
+            rules.push(("ent_stmt".into(), seq(vec![lit("ent"), sym("_rec_entry"), lit(";")])));
+            items.push(sym("ent_stmt"));
+        }
+    }
     rules.push((expr_name.into(), choice(alts)));
     if expr_mode == 0 { supertypes.push(json!("_expr")); feats.push("supertype"); }
     let item_super = rng.chance(1, 3);
